@@ -221,7 +221,7 @@ LABEL_MAPS = {'int': lambda k: int(k) * 7 % 10,                      # not monot
               'str': lambda k: {1: 'pear', 2: 'apple', 3: 'fig', 4: 'kiwi', 5: 'date', 6: 'lime'}.get(k, f'c{k}'),
               'int10': lambda k: {1: 9, 2: 10, 3: 2, 4: 100, 5: 11, 6: 1}.get(k, 1000 + k)}   # '10' < '9' as strings
 FOLD_MAPS = {'int': lambda f: int(f), 'int10': lambda f: {1: 9, 2: 10, 3: 100, 4: 11}.get(f, 1000 + f),
-             'str': lambda f: f'run{f}', 'float': lambda f: float(f) / 2}
+             'str': lambda f: f'run{f}', 'float': lambda f: float(f) / 2 - 0.25}      # 0.25, 0.75, 1.25: distinct, equal when truncated
 
 
 def flavour(i, complete):
